@@ -200,7 +200,8 @@ def run_case_guarded(prop, case):
         signal.setitimer(signal.ITIMER_REAL, 0)
         r = result('no-termination',
                    viol=[viol('no-termination', sig=prop.timeout_sig(case) if hasattr(prop, 'timeout_sig') else (),
-                              detail='case exceeded %.0f s horizon' % prop.HORIZON)])
+                              detail='case exceeded %.0f s horizon' % prop.HORIZON,
+                              **(prop.timeout_scope(case) if hasattr(prop, 'timeout_scope') else {}))])
         return r, None
     except BaseException:
         signal.setitimer(signal.ITIMER_REAL, 0)
@@ -234,15 +235,20 @@ def new_agg():
 
 
 def fold(agg, cid, case, r):
-    agg['n'] += 1
+    agg['n'] += r.get('n', 1)
     agg['trans'] += r['trans']
     agg['states'].update(r['states'])
-    if r['nt'] is not None:
+    if isinstance(r['nt'], (list, tuple, set)):
+        agg['nt'].update(r['nt'])
+    elif r['nt'] is not None:
         agg['nt'].add(r['nt'])
     if r['out'] is not None:
         agg['outs'].add(r['out'])
     oc = r['outcome']
-    agg['outcomes'][oc] += 1
+    if r.get('outcomes'):
+        agg['outcomes'].update(r['outcomes'])     # a case that aggregates many evaluations
+    else:
+        agg['outcomes'][oc] += 1
     if oc not in agg['first'] or cid < agg['first'][oc][0]:
         agg['first'][oc] = (cid, case)
     if agg['last'] is None or cid > agg['last'][0]:
